@@ -92,6 +92,10 @@ def c01_component_name_escaped_twice(case, observed, expected):
     special in TEXT values: BEGIN/END values are written through the TEXT escaper twice and read through
     the placeholder mechanism, so such names change on every trip"""
     d = (case.get("diff") or {})
+    if isinstance(observed, dict) and observed.get("clause") == "reparse-rejected":
+        # the re-serialised text no longer parses: some BEGIN/END value of the first serialisation carries such a character
+        import re
+        return any(re.match(r"^(BEGIN|END):.*[\\;,:\r]", ln) for ln in str(observed.get("b1", "")).split("\r\n"))
     if d.get("what") != "name":
         return False
     a = d.get("a", "")
